@@ -34,16 +34,20 @@ ASSUMPTIONS = [
 CASE_TIMEOUT = 900
 PY = '/venv/bin/python'
 
-MODMAP = {'ud': {'m1': ('X', [0x66, 0x66]), 'm2': ('Y', [0x66, 0x66]), 'a1': ('X', [0x7A, 0x7A])},
-          'src': {'m1': 'X', 'm2': 'Y', 'a1': 'Q'},
-          'co': {'m1': 'X', 'm2': 'Y', 'a1': 'Q'},
+MODMAP = {'ud': {'m1': ('X', [0x66, 0x66]), 'm2': ('Y', [0x66, 0x66]), 'a1': ('X', [0x7A, 0x7A]), 'b1': ('X', [0x88, 0x88])},
+          'src': {'m1': 'X', 'm2': 'Y', 'a1': 'Q', 'b1': 'Z'},
+          'co': {'m1': 'X', 'm2': 'Y', 'a1': 'Q', 'b1': 'Z'},
           # the BMC wrapper: m1 / m2 are the two modules of ONE component (BD..AA.. -> oaa00, BC..AA.. -> bsrc)
-          'osrc': {'m1': 'BD8DAA', 'm2': 'BC8AAA', 'a1': 'BD8DCC'}}
-NAMES = {'ud': {'m1': 'udparsers.x6666.x6666', 'm2': 'udparsers.y6666.y6666', 'a1': 'udparsers.x7a7a.x7a7a'},
-         'src': {'m1': 'srcparsers.xsrc.xsrc', 'm2': 'srcparsers.ysrc.ysrc', 'a1': 'srcparsers.qsrc.qsrc'},
+          # b1: modules that exist but fail while being loaded
+          'osrc': {'m1': 'BD8DAA', 'm2': 'BC8AAA', 'a1': 'BD8DCC', 'b1': 'BD8DDD'}}
+NAMES = {'ud': {'m1': 'udparsers.x6666.x6666', 'm2': 'udparsers.y6666.y6666', 'a1': 'udparsers.x7a7a.x7a7a',
+                'b1': 'udparsers.x8888.x8888'},
+         'src': {'m1': 'srcparsers.xsrc.xsrc', 'm2': 'srcparsers.ysrc.ysrc', 'a1': 'srcparsers.qsrc.qsrc',
+                 'b1': 'srcparsers.zsrc.zsrc'},
          'co': {'m1': 'calloutparsers.xcallouts.xcallouts', 'm2': 'calloutparsers.ycallouts.ycallouts',
-                'a1': 'calloutparsers.qcallouts.qcallouts'},
-         'osrc': {'m1': 'srcparsers.oaa00.oaa00', 'm2': 'srcparsers.bsrc.bsrc', 'a1': 'srcparsers.occ00.occ00'}}
+                'a1': 'calloutparsers.qcallouts.qcallouts', 'b1': 'calloutparsers.zcallouts.zcallouts'},
+         'osrc': {'m1': 'srcparsers.oaa00.oaa00', 'm2': 'srcparsers.bsrc.bsrc', 'a1': 'srcparsers.occ00.occ00',
+                  'b1': 'srcparsers.odd00.odd00'}}
 BEHSEL = {'ok': 0, 'nondict': 1, 'none': 2, 'raise': 3, 'importerror': 4, 'raise_empty': 5}
 PROC = {'ok': 'FIX0001', 'nondict': 'FIXJUNK', 'none': 'NOSUCH1', 'raise': 'FIXBOOM', 'importerror': 'FIXIMPT',
         'raise_empty': 'FIXEMPT'}
@@ -77,7 +81,7 @@ def cases(tier, seed, info):
     info['tlc_histories_len2'] = len(two)
     info['tlc_histories_used'] = len(out)
     m = 25 if tier == 'quick' else 500
-    alphabet = [dict(cache=c, mod=mm, beh=b, plugins=pl) for c in ('ud', 'src', 'co', 'osrc') for mm in ('m1', 'm2', 'a1')
+    alphabet = [dict(cache=c, mod=mm, beh=b, plugins=pl) for c in ('ud', 'src', 'co', 'osrc') for mm in ('m1', 'm2', 'a1', 'b1')
                 for b in BEHSEL for pl in (True, True, False)]
     for k in range(m):
         items = []
